@@ -592,7 +592,11 @@ func (m *NodeManager) synchronizeBlocks(ctx context.Context, interrupt <-chan in
 	done := false
 	for _, hash := range hashes {
 		complete, abort := blockManager.AddRequest(ctx, hash, height, m.blockTxProcessor)
+		if complete == nil {
+			return nil // block manager is no longer accepting requests
+		}
 		blockDone := false
+		aborted := false
 
 		for !blockDone {
 			select {
@@ -602,12 +606,13 @@ func (m *NodeManager) synchronizeBlocks(ctx context.Context, interrupt <-chan in
 					return errors.Wrap(err, "header hash")
 				}
 
-				if !heightHash.Equal(&hash) {
+				if !heightHash.Equal(&hash) && !aborted {
 					logger.WarnWithFields(ctx, []logger.Field{
 						logger.Stringer("block_hash", hash),
 						logger.Int("block_height", height),
 					}, "Aborting orphaned block")
 					close(abort)
+					aborted = true
 				}
 
 			case err := <-complete:
